@@ -14,30 +14,46 @@
   * `Sem.old`   – the code before those commits: the signal actor is `<-sig`, its interrupt function is
     `defer close(sig); cancel()` without `signal.Stop`, and an actor whose `Run` returns an error calls
     `panic(err)`.
-  The per-fan effect of `restorePwmEnabled` is abstracted to the Boolean `restored` (justified by
-  Props/C03.lean part (i): `C03_restore`).
+  The per-fan effect of `restorePwmEnabled` is the Boolean `restored` plus its effect on the two device
+  registers of a cooperative device (`CState.restore`; the faulty devices are the subject of Props/C03.lean
+  part (i): `C03_restore`).
+
+  The single-controller slice (`CEvt`, `crunStep`, `crun`) is tied to the real `Run(ctx)` by correspondence
+  stream `lc` (go/harness/lifecycle.go vs Driver/LifecycleStream.lean): the real controller is driven on a
+  virtual device in virtual time and its context is cancelled at every phase boundary.
 -/
 namespace Fan2go.Lifecycle
 
 /-- Where a controller's `Run` is. -/
 inductive Phase where
-  /-- `persistence.Init`, reading `originalPwmValue` / `originalPwmEnabled` (controller.go:110-137) -/
+  /-- `persistence.Init`, reading `originalPwmValue` / `originalPwmEnabled` (controller.go:112-137) -/
   | readOrig
   /-- `time.Sleep(2s + 2·TempSensorPollingRate)` (:141) -/
   | startupWait
-  /-- first `LoadFanPwmData` and the decision to initialise (:146-161) -/
+  /-- first `LoadFanPwmData` and the decision to initialise (:146-162) -/
   | loadOrInit
-  /-- inside `RunInitializationSequence` (:263-351): PWM-map sweep and RPM-curve measurement;
-      `trySetManualPwm` and PWM writes happen here; `ctx` is not consulted -/
+  /-- `RunInitializationSequence` has been entered (:266-276): mutex, `computePwmMapLocked` decides whether
+      the PWM map comes from the configuration / the database or has to be swept; nothing written yet -/
   | initializing
-  /-- after a successful initialisation: second `LoadFanPwmData`, `AttachFanRpmCurveData` (:164-172) -/
+  /-- `computePwmMapAutomatically` inside the initialisation sequence (:636-661): `trySetManualPwm`, then
+      `SetPwm(255) … SetPwm(0)` with a 5 ms sleep each, then `SetPwm(start PWM)`; `ctx` is not consulted -/
+  | initSweep
+  /-- the RPM-curve measurement loop (:293-340): `trySetManualPwm`, then per distinct target `setPwm`,
+      5 ms, settle polls (first point) / `FanResponseDelay` sleeps; `ctx` is not consulted -/
+  | initMeasure
+  /-- second `LoadFanPwmData`, `AttachFanRpmCurveData` (:164-175) – reached on EVERY start-up path -/
   | postInit
-  /-- the control-loop actor: 1 s sleep, then `select { ctx.Done | tick }` (:213-231) -/
+  /-- `computePwmMap` (:177) had to sweep (`computePwmMapAutomatically`): no map in the configuration, none
+      stored (a file fan's first start, a start after `DeleteFanPwmMap`); `ctx` is not consulted -/
+  | mapSweep
+  /-- the control-loop actor has been started: `time.Sleep(1 * time.Second)` (:218), not interruptible -/
+  | headStart
+  /-- the control-loop actor's `select { ctx.Done | tick }` (:219-233) -/
   | ticking
-  /-- the control-loop actor is about to call `restorePwmEnabled` (:219 / :226) -/
+  /-- the control-loop actor is about to call `restorePwmEnabled` (:224 / :230) -/
   | restoring
   /-- the control-loop actor has returned; the inner `run.Group` waits for the RPM monitor actor, which
-      only returns on `ctx.Done()` (:194-203) -/
+      only returns on `ctx.Done()` (:198-208) -/
   | joining
   /-- `Run` has returned -/
   | exited
@@ -47,13 +63,13 @@ inductive Phase where
 inductive Reason where
   /-- returned nil after the control loop ended -/
   | done
-  /-- returned an error before anything was written to the fan (`persistence.Init`, `SaveFanPwmData`,
-      `LoadFanPwmData`, `AttachFanRpmCurveData` on the no-initialisation path) -/
+  /-- returned an error before anything was written to the fan (`persistence.Init`; `SaveFanPwmData` of a
+      file / cmd fan without stored data) -/
   | runError
-  /-- `RunInitializationSequence` failed: `restorePwmEnabled()` then `return err` (:151-154) -/
+  /-- `RunInitializationSequence` failed: `restorePwmEnabled()` then `return err` (:151-155) -/
   | initFail
-  /-- `LoadFanPwmData` / `AttachFanRpmCurveData` failed AFTER a successful initialisation sequence:
-      `return err` without `restorePwmEnabled()` (:164-172) -/
+  /-- the second `LoadFanPwmData` / `AttachFanRpmCurveData` failed: `restorePwmEnabled()` then `return err`
+      (:164-175; the restore is there since commit c9f18fa) -/
   | postInitError
   deriving Repr, DecidableEq, Inhabited
 
@@ -61,14 +77,42 @@ structure CState where
   phase : Phase := .readOrig
   /-- the fan has an RPM input, so `Run` starts the RPM monitor actor -/
   hasRpm : Bool := true
-  /-- this process has written to the fan (`trySetManualPwm` / `SetPwm`) -/
+  /-- this process has written to the fan (any PWM or mode write, `restorePwmEnabled`'s own included) -/
   touched : Bool := false
   /-- regulation has begun: the control-loop actor has been started -/
   regulated : Bool := false
   /-- `restorePwmEnabled` has run since -/
   restored : Bool := false
   reason : Option Reason := none
+  /-- `fan.Supports(FeatureControlMode)`: a hwmon fan with a `pwmN_enable` file -/
+  hasMode : Bool := true
+  /-- the device registers `pwmN_enable`, `pwmN` (a cooperative device: every write is applied; the faulty
+      ones are the subject of Props/C03.lean part (i)) -/
+  mode : Int := 2
+  pwm : Int := 0
+  /-- `f.originalPwmEnabled`, `f.originalPwmValue` (Go zero values until `readOrig` has captured them) -/
+  origMode : Int := 0
+  origPwm : Int := 0
   deriving Repr, DecidableEq, Inhabited
+
+/-- `trySetManualPwm` (:383-397): `SetPwmEnabled(1)` if the fan has a control mode, else nothing. -/
+def CState.manual (c : CState) : CState :=
+  if c.hasMode then { c with mode := 1, touched := true } else c
+
+/-- one `SetPwm(v)` that reaches the register -/
+def CState.wr (c : CState) (v : Int) : CState := { c with pwm := v, touched := true }
+
+/-- `restorePwmEnabled` (:399-419): `SetPwm(original)`; with a control mode and an original mode other than
+    manual `SetPwmEnabled(original)` and return; otherwise `SetPwm(255)`. -/
+def CState.restore (c : CState) : CState :=
+  if c.hasMode && c.origMode != 1 then
+    { c with pwm := c.origPwm, mode := c.origMode, touched := true, restored := true }
+  else
+    { c with pwm := 255, touched := true, restored := true }
+
+/-- C03's predicate on the registers: handed back in the original non-manual mode, or at full speed. -/
+def CState.regsRestored (c : CState) : Bool :=
+  (c.hasMode && c.origMode != 1 && c.mode == c.origMode) || c.pwm == 255
 
 /-- The moves of one controller. -/
 inductive CAct where
@@ -77,11 +121,17 @@ inductive CAct where
   | advance
   /-- `loadOrInit`: no stored data for an hwmon fan, `RunInitializationSequence` starts -/
   | needInit
-  /-- the current phase fails: `Run` returns an error (`readOrig`, `loadOrInit`, `initializing`,
+  /-- `initializing` / `postInit`: no PWM map configured or stored and the PWM value is readable:
+      `computePwmMapAutomatically` starts with `trySetManualPwm` -/
+  | needSweep
+  /-- `initSweep` / `mapSweep` / `initMeasure`: one more `SetPwm(v)` of the analysis -/
+  | write (v : Int)
+  /-- the current phase fails: `Run` returns an error (`readOrig`, `loadOrInit`, `initMeasure`,
       `postInit`), or `UpdateFanSpeed` returns an error (`ticking`, e.g. stalled at maximum PWM) -/
   | fail
-  /-- `ticking`: one successful `UpdateFanSpeed` (`trySetManualPwm` + `setPwm`) -/
-  | tick
+  /-- `ticking`: one successful `UpdateFanSpeed`: `trySetManualPwm`, then `setPwm` (which writes `v` unless
+      the register already reads `v`) -/
+  | tick (v : Int := 128)
   /-- `ticking`: the `ctx.Done()` case of the select is taken -/
   | seeCancel
   deriving Repr, DecidableEq, Inhabited
@@ -93,42 +143,118 @@ inductive CEv where
   | returned (err : Bool)
   deriving Repr, DecidableEq, Inhabited
 
-/-- One move of a controller; `none` = not enabled. `cancelled` = `ctx.Done()` is closed. -/
+/-- One move of a controller; `none` = not enabled. `cancelled` = `ctx.Done()` is closed. Only `ticking`
+    (`seeCancel`) and `joining` consult it: everything before the control loop's `select` runs to completion. -/
 def cstep (cancelled : Bool) (c : CState) : CAct → Option (CState × CEv)
   | .advance =>
     match c.phase with
-    | .readOrig => some ({ c with phase := .startupWait }, .quiet)
+    | .readOrig =>
+      some ({ c with phase := .startupWait, origPwm := c.pwm,
+                     origMode := if c.hasMode then c.mode else c.origMode }, .quiet)
     | .startupWait => some ({ c with phase := .loadOrInit }, .quiet)
-    | .loadOrInit => some ({ c with phase := .ticking, regulated := true }, .quiet)
-    | .initializing => some ({ c with phase := .postInit }, .quiet)
-    | .postInit => some ({ c with phase := .ticking, regulated := true }, .quiet)
+    | .loadOrInit => some ({ c with phase := .postInit }, .quiet)
+    | .initializing =>
+      -- map taken from the configuration / the database: no sweep
+      if c.hasRpm then some ({ c.manual with phase := .initMeasure }, .quiet)
+      else some ({ c with phase := .postInit }, .quiet)
+    | .initSweep =>
+      if c.hasRpm then some ({ c.manual with phase := .initMeasure }, .quiet)
+      else some ({ c with phase := .postInit }, .quiet)
+    | .initMeasure => some ({ c with phase := .postInit }, .quiet)
+    | .postInit => some ({ c with phase := .headStart, regulated := true }, .quiet)
+    | .mapSweep => some ({ c with phase := .headStart, regulated := true }, .quiet)
+    | .headStart => some ({ c with phase := .ticking }, .quiet)
     | .ticking => none
-    | .restoring => some ({ c with phase := .joining, restored := true }, .quiet)
+    | .restoring => some ({ c.restore with phase := .joining }, .quiet)
     | .joining =>
       if cancelled || !c.hasRpm then some ({ c with phase := .exited, reason := some .done }, .returned false)
       else none
     | .exited => none
   | .needInit =>
     match c.phase with
-    | .loadOrInit => some ({ c with phase := .initializing, touched := true }, .quiet)
+    | .loadOrInit => some ({ c with phase := .initializing }, .quiet)
+    | _ => none
+  | .needSweep =>
+    match c.phase with
+    | .initializing => some ({ c.manual with phase := .initSweep }, .quiet)
+    | .postInit => some ({ c.manual with phase := .mapSweep }, .quiet)
+    | _ => none
+  | .write v =>
+    match c.phase with
+    | .initSweep => some (c.wr v, .quiet)
+    | .initMeasure => some (c.wr v, .quiet)
+    | .mapSweep => some (c.wr v, .quiet)
     | _ => none
   | .fail =>
     match c.phase with
     | .readOrig => some ({ c with phase := .exited, reason := some .runError }, .returned true)
     | .loadOrInit => some ({ c with phase := .exited, reason := some .runError }, .returned true)
-    | .initializing =>
-      some ({ c with phase := .exited, restored := true, reason := some .initFail }, .returned true)
-    | .postInit => some ({ c with phase := .exited, reason := some .postInitError }, .returned true)
+    | .initMeasure =>
+      some ({ c.restore with phase := .exited, reason := some .initFail }, .returned true)
+    | .postInit =>
+      some ({ c.restore with phase := .exited, reason := some .postInitError }, .returned true)
     | .ticking => some ({ c with phase := .restoring }, .quiet)
     | _ => none
-  | .tick =>
+  | .tick v =>
     match c.phase with
-    | .ticking => some ({ c with touched := true }, .quiet)
+    | .ticking => some (if c.manual.pwm = v then c.manual else c.manual.wr v, .quiet)
     | _ => none
   | .seeCancel =>
     match c.phase with
     | .ticking => if cancelled then some ({ c with phase := .restoring }, .quiet) else none
     | _ => none
+
+/-! ### one controller on its own (what stream `lc` drives: the real `Run(ctx)` with a scripted cancellation) -/
+
+/-- An event of a single controller's life: one of its moves, or `cancel()` of its context. -/
+inductive CEvt where
+  | act (a : CAct)
+  | cancel
+  deriving Repr, DecidableEq, Inhabited
+
+structure CRun where
+  c : CState
+  /-- `ctx.Done()` is closed -/
+  cancelled : Bool := false
+  /-- control cycles begun (`UpdateFanSpeed` calls, the failing one included) -/
+  cycles : Nat := 0
+  /-- `Run` has returned (`err ≠ nil`?) -/
+  ret : Option Bool := none
+  deriving Repr, DecidableEq, Inhabited
+
+/-- One event; a move that is not enabled leaves everything as it is. -/
+def crunStep (s : CRun) : CEvt → CRun
+  | .cancel => { s with cancelled := true }
+  | .act a =>
+    match cstep s.cancelled s.c a with
+    | none => s
+    | some (c', ev) =>
+      let cyc := match s.c.phase, a with
+        | .ticking, .tick _ => s.cycles + 1
+        | .ticking, .fail => s.cycles + 1
+        | _, _ => s.cycles
+      { s with c := c', cycles := cyc,
+               ret := match ev with | .quiet => s.ret | .returned e => some e }
+
+def crun : CRun → List CEvt → CRun
+  | s, [] => s
+  | s, e :: es => crun (crunStep s e) es
+
+/-- A controller about to call `Run` on a fan whose registers read `mode` / `pwm`. -/
+def cinit (hasRpm hasMode : Bool) (mode pwm : Int) : CRun :=
+  { c := { hasRpm := hasRpm, hasMode := hasMode, mode := mode, pwm := pwm } }
+
+/-- The move a controller makes next when nothing fails and nothing is left to analyse: the success path,
+    and in `ticking` the `ctx.Done()` case. -/
+def nextMove (c : CState) : CAct :=
+  match c.phase with
+  | .ticking => .seeCancel
+  | _ => .advance
+
+/-- `n` such moves. -/
+def drain : Nat → CRun → CRun
+  | 0, s => s
+  | n + 1, s => drain n (crunStep s (.act (nextMove s.c)))
 
 /-- The process. `panicked` = killed by a Go runtime panic (exit status 2, no interrupt function runs). -/
 inductive Proc where
